@@ -162,3 +162,57 @@ func H_C14_dn_samples() {
 	}
 	vCover("end")
 }
+
+// The key identifier is the SHA-256 of the key material, in lower-case hex for versions 0/1 and in padded standard base64
+// for version 2 (SHA-256 itself is uninterpreted: both sides call the same primitive); ConvertToBinaryIdentifier reads
+// either form back to the 32 bytes. A blob handed over as a DN-with-binary parses like the blob itself.
+func H_C14_key_identifier() {
+	versions := [3]uint32{key.KeyCredentialVersion_0, key.KeyCredentialVersion_1, key.KeyCredentialVersion_2}
+	ver := key.KeyCredentialVersion{Value: versions[vParam("version")]}
+	m := vBytes("material", vParam("mlen"))
+	h := utils.ComputeHash(m)
+	vCheck(len(h) == 32, "keyid/hash-is-32-bytes")
+	if len(h) != 32 {
+		return
+	}
+	id := utils.ComputeKeyIdentifier(m, ver)
+	var want []byte
+	if vParam("version") < 2 {
+		const digits = "0123456789abcdef"
+		for _, b := range h {
+			want = append(want, digits[b>>4], digits[b&15])
+		}
+	} else {
+		const alpha = "ABCDEFGHIJKLMNOPQRSTUVWXYZabcdefghijklmnopqrstuvwxyz0123456789+/"
+		for i := 0; i+3 <= 30; i += 3 {
+			v := uint32(h[i])<<16 | uint32(h[i+1])<<8 | uint32(h[i+2])
+			want = append(want, alpha[v>>18&63], alpha[v>>12&63], alpha[v>>6&63], alpha[v&63])
+		}
+		v := uint32(h[30])<<16 | uint32(h[31])<<8
+		want = append(want, alpha[v>>18&63], alpha[v>>12&63], alpha[v>>6&63], '=')
+	}
+	vCheck(vStrEq(id, string(want)), "keyid/text-form-of-the-hash")
+	back, err := utils.ConvertToBinaryIdentifier(id, ver)
+	vCheck(err == nil && vBytesEq(back, h), "keyid/text-form-reads-back-to-the-hash")
+	vCover("end")
+}
+
+func H_C14_parse_dn_with_binary() {
+	kc := c14credential()
+	blob, err := kc.ToBytes()
+	vCheck(err == nil, "dnb/serialise-ok")
+	if err != nil {
+		return
+	}
+	d := DNWithBinary{DistinguishedName: "CN=owner,DC=example,DC=com", BinaryData: blob}
+	var p DNWithBinary
+	vCheck(p.Parse([]byte(d.ToString())) == nil, "dnb/text-parses")
+	var a, b KeyCredential
+	vCheck(a.ParseDNWithBinary(p) == nil && b.FromBytes(blob) == nil, "dnb/both-parse")
+	vCheck(a.Version.Value == b.Version.Value && vStrEq(a.Identifier, b.Identifier) && vBytesEq(a.KeyHash, b.KeyHash), "dnb/same-version-identifier-hash")
+	vCheck(a.LastLogonTime.Ticks == b.LastLogonTime.Ticks && a.CreationTime.Ticks == b.CreationTime.Ticks && a.Source == b.Source && a.Usage.Value == b.Usage.Value, "dnb/same-times-source-usage")
+	vCheck(a.DeviceId.Equal(&b.DeviceId) && vBytesEq(a.RawKeyMaterial.Modulus, b.RawKeyMaterial.Modulus), "dnb/same-device-and-modulus")
+	again, err := a.ToBytes()
+	vCheck(err == nil && vBytesEq(again, blob), "dnb/re-serialise-identical")
+	vCover("end")
+}
